@@ -497,6 +497,26 @@ class ChildWorld:
             ev["calls"] = self.clock.calls
             if len(op) > 2:
                 self.kept[op[2]] = tr
+        elif name == "simulate_api":
+            # the top-level convenience function: builds its own RDScript from keyword arguments
+            self.clock.set_plan(op[1])
+            sd = self.case["scripts"][sidx]
+            system = self.get_system(sidx)
+            kw = {}
+            for k, v in sd["script"].items():
+                if k == "units_system":
+                    kw[k] = self.st.UnitsSystem(**v)
+                elif k == "t_sample" and isinstance(v, list):
+                    kw[k] = [_to_unit_objects(x) for x in v]
+                else:
+                    kw[k] = _to_unit_objects(v)
+            ts = kw.pop("t_sample")
+            self.global_size = system.state_size()
+            tr = self.st.simulate(system, ts, engine=eng, **kw)
+            ev["t"] = tr.t.value.tobytes()
+            ev["data"] = tr.data.value.tobytes()
+            ev["seed"] = int(tr.script.rng_seed)
+            ev["nsamples"] = int(tr.nsamples())
         elif name == "rerun_kept":
             # re-run the script stored in a kept trajectory on a fresh engine object of the given kind
             tr0 = self.kept[op[1]]
@@ -541,6 +561,20 @@ class ChildWorld:
                     ev.setdefault("usys_list", []).append([r.units.sys["space"], r.units.sys["time"], r.units.sys["quantity"]])
             ev["vals"] = vals
             ev["dims"] = dims
+            if len(op) > 5 and op[5]:
+                # the two building blocks: compute_reaction_rates / compute_diffusion_rates
+                parts = []
+                for prt in op[5]:
+                    if prt[0] == "r":
+                        a, b = kinetics.compute_reaction_rates(system, int(prt[1]), int(prt[2]), state, U)
+                    else:
+                        a, b = kinetics.compute_diffusion_rates(system, int(prt[1]), int(prt[2]), int(prt[3]), state, U)
+                    parts.append([float(a.value), float(b.value),
+                                  [a.units.sys["space"], a.units.sys["time"], a.units.sys["quantity"]],
+                                  [a.units.dim["space"], a.units.dim["time"], a.units.dim["quantity"]],
+                                  [b.units.sys["space"], b.units.sys["time"], b.units.sys["quantity"]],
+                                  [b.units.dim["space"], b.units.dim["time"], b.units.dim["quantity"]]])
+                ev["parts"] = parts
             if len(op) > 4 and op[4] == "dxdtf":
                 f = system.make_dxdtf(U)
                 xs = state.convert(U).value
@@ -623,7 +657,7 @@ class ChildWorld:
                     if getattr(self, "sandbox", None):
                         ev["exc"] = ev["exc"].replace(self.sandbox, "<sandbox>")
                         ev["tb"] = ev["tb"].replace(self.sandbox, "<sandbox>")
-                    if op[0] in ("setup", "simulate_script"):
+                    if op[0] in ("setup", "simulate_script", "simulate_api"):
                         setup_failed = True
                 ev["e"] = ei
                 ev["i"] = oi
